@@ -393,6 +393,14 @@ class Scenario:
                             msg = f"Collected bad observation: {debug_output}"
                             self.logger.warning(msg)
 
+                    # [NOTE]: a target can be managed by several engines, each of which then holds
+                    #   the same imported observation. It is handed to the filter once.
+                    if any(
+                        other.sensor_id == observation.sensor_id
+                        and other.julian_date == observation.julian_date
+                        for other in obs_dict[observation.target_id]
+                    ):
+                        continue
                     obs_dict[observation.target_id].append(observation)
 
                 tasking_engine.resetHandles()
